@@ -22,7 +22,7 @@ ASSUMPTIONS = [
 ]
 BOUNDS = {
     'quick': {'A': 'n<=4 complete', 'B,C': 'n<=4 complete', 'A1 (x0=0, unit gaps)': 'n=5 complete',
-              'scale family (7 rescalings of A)': 'n<=3', 'configs/curve': 'whole product'},
+              'scale family (7 rescalings of A)': 'n<=3', 'trace windows': 'all windows of 12 points of web0_reduced.csv and of usr0.csv[::64]', 'configs/curve': 'whole product'},
     'thorough': {'A': 'n<=5 complete', 'B,C': 'n<=5 complete', 'A1': 'n=6 complete', 'scale family': 'n<=4'},
 }
 TECHNIQUE = 'bounded-exhaustive exploration of the real simplifiers under a sys.monitoring loop monitor; abstract split machine explored by BFS for the step bound'
@@ -77,6 +77,7 @@ def units(tier, seed):
         for n in scale_n:
             K = {2: 1, 3: 4, 4: 48}[n]
             plan.append((p.name, n, K))
+    plan += [('Tweb0r', 12, 8), ('Tusr0s64', 12, 16)] if tier == 'quick' else [('Tweb0r', 20, 8), ('Tweb0r', 40, 8), ('Tusr0s64', 24, 16), ('Tusr0s64', 48, 16), ('Tusr0s8', 32, 64)]
     b = curves.bonus(seed)
     plan.append((b.name, 3, 4))
     if tier == 'thorough':
